@@ -69,13 +69,13 @@ FS = "src/exo/rewrite/LoopIR_scheduling.py"
 
 SRC2 = SrcInfo("ghost-child", 1)
 
-# Precondition U for Alpha_Rename (see ASSUMPTIONS): "a symbol declared at the top of the then-branch of an If does
-# not occur in its else-branch".  The real Alpha_Rename.map_s renames both branches in ONE ChainMap frame, which is
-# correct only under U (witness/F60_alpha_rename_if_shared_frame.py: without U a free symbol of the else-branch is
-# captured, and an Alloc of the same symbol in both branches - reachable through lift_scope + eliminate_dead_code -
-# makes every copying rewrite die with an AssertionError).  Set to False once the branches are renamed in separate
-# frames: the contract then states the unconditional clause (the branches of an If are two blocks).
-U_PRECONDITION = True
+# The branches of an If are two blocks.  Until /repo 65ce5978 Alpha_Rename.map_s renamed both branches in ONE
+# ChainMap frame, which is correct only under precondition U "a symbol declared at the top of the then-branch does
+# not occur in the else-branch" (finding F60, witness/F60_alpha_rename_if_shared_frame.py: a free symbol of the
+# else-branch was captured; an Alloc of the same symbol in both branches - reachable through lift_scope +
+# eliminate_dead_code - made every copying rewrite die with an AssertionError).  The clause is now stated
+# unconditionally (U_PRECONDITION = False); True restores the weaker, conditional clause.
+U_PRECONDITION = False
 
 
 def _AR():
@@ -431,9 +431,9 @@ class Chk:
         if isinstance(o, LoopIR.If):
             self.e(o.cond, r.cond, env, where + ".cond", ignore)
             d = self.block(o.body, r.body, env, where + ".body", ignore)
-            # the else branch is its own block.  Precondition U (unique binders): a symbol declared at the top of
-            # the then-branch does not occur in the else branch, so an environment that still contains it renames
-            # the else branch in the same way.
+            # the else branch is its own block: what the then-branch declares is not in scope there.
+            # (U_PRECONDITION = True: the older, conditional clause - such a symbol is assumed not to occur in
+            # the else branch, so an environment that still contains it renames the else branch in the same way.)
             self.block(o.orelse, r.orelse, env, where + ".orelse", tuple(ignore) + (tuple(d or ()) if U_PRECONDITION else ()))
             return {}
         if isinstance(o, LoopIR.For):
@@ -1617,18 +1617,17 @@ ASSUMPTIONS = [
     "SCHEMATIC children; recursive map_s / map_e / map_t calls are the induction hypothesis (depth and content of the "
     "children unbounded).  Bounded: list lengths 0..2 (blocks, indices, call arguments, extents, window dimensions), the "
     "environment shapes of the node under proof (empty / one frame / two frames), procedures with <= 2 arguments",
-    "C04/C01 Alpha_Rename precondition U (unique binders, established by the front end and kept by Alpha_Rename itself): a "
-    "symbol declared at the top of the then-branch of an If does not occur in its else-branch, and an argument's name does "
-    "not occur in its own type.  Alpha_Rename.map_s keeps ONE ChainMap frame for both branches of an If and binds an "
-    "argument before renaming its type; under U this renames exactly like separate scopes.  Without U: an Alloc of the same "
-    "symbol directly in both branches raises AssertionError (`assert s.name not in self.env`)",
+    "C04/C01 Alpha_Rename(proc): an argument is bound before its own type is renamed; this renames like 'the scope of an "
+    "argument is the LATER argument types, the assertions and the body' because an argument's name does not occur in its "
+    "own type (front end: a type may mention earlier arguments only)",
     "C04/C01 Alpha_Rename: an Alloc whose symbol is already renamed in an enclosing scope of the copy is rejected by an "
     "assertion (allowed exit); For / WindowStmt binders may shadow (the inner binding wins, the outer one is restored)",
     "C04/C01 SubstArgs does not look at binders: SubstArgs(block, B) is capture-free only if (S1) no key of B is declared "
     "inside block and (S2) no symbol of a bound expression is declared inside block.  Callers: DoDivideLoop substitutes into "
     "an Alpha_Rename'd copy (all binders fresh: S1, S2 hold); DoUnroll binds the loop's own iterator to a constant (S2 "
-    "trivial, S1 = the iterator is not re-declared in its body: precondition U); DoInline binds the callee's formals to "
-    "caller expressions BEFORE renaming the callee body (S1 = U for the callee; S2 = symbols of the caller are never "
+    "trivial, S1 = the iterator is not re-declared in its own body: no shadowing in well-formed procedures); DoInline binds "
+    "the callee's formals to caller expressions BEFORE renaming the callee body (S1 = a formal is not re-declared in the "
+    "callee's body; S2 = symbols of the caller are never "
     "declared inside the callee: procedures do not share symbols - not proved here); DoFuseLoop and new_eff use the result "
     "for analysis only",
     "C04/C01 SubstArgs does not compose windows: a binding to a WindowExpr is rejected by an assertion; DoInline first binds "
